@@ -537,3 +537,12 @@ def z11_lexical(ctx):
 
 
 RULES.append(('Z11', z11_lexical))
+
+
+def z12_stateless(ctx):
+    """Z12 literal readers carry no state from one capture of the line to the next (shared rule, scv/common.py)"""
+    from ..common import reader_stateless
+    reader_stateless(ctx, 'Z12', ('Time',))
+
+
+RULES.append(('Z12', z12_stateless))
